@@ -66,6 +66,33 @@ CHECKS["C19"] = ("exploration", "DESIGN.md §4, §7 C19",
     "the last fault.",
     "Trusts the reference registry model (a dict) and the reference server; handlers are workload code.")
 
+CHECKS["C04"] = ("exploration", "DESIGN.md §7 C04",
+    "deterministic simulation: library transform/recover <-> independent reference codec in both directions with the mask PRNG behind the seam; plus full sessions on the simulated wire",
+    "Seeded search over data-transform programs (all encoders, orderings, repetitions, empty/binary affixes, all termination "
+    "kinds, 1-3 build blocks, static decorations), payloads and initial requests: library-encoded messages must decode with "
+    "the reference interpreter, reference-encoded messages (both base64url padding conventions) must recover with the "
+    "library, and the library must invert itself; 15% of runs are full client/server sessions.",
+    "Trusts the reference codec; the known finding F-C04-1 (uri-append with a non-empty initial URI at the transform level) is reported as KNOWN-FINDING.")
+CHECKS["C05"] = ("fault_enumeration", "DESIGN.md §7 C05",
+    "fault enumeration on simulated packets: every single-bit flip and every truncation of ciphertext and signature, wrong/missing HMAC keys, against a reference cipher; framing split; plus sessions with in-flight corruption",
+    "Per packet the whole single-bit and truncation fault space of ciphertext||signature is enumerated and must be rejected "
+    "with ValueError; ciphertext and signature are compared with AES-128-CBC / HMAC-SHA256 computed independently; streams "
+    "of 1-5 framed packets and trailing-signature task data must split back exactly; sessions add corruption in flight.",
+    "The packet population (plaintexts, keys, IVs) is sampled; trusts PyCryptodome AES and stdlib hmac.")
+CHECKS["C06"] = ("exploration", "DESIGN.md §7 C06",
+    "deterministic simulation: check-ins between the library and an independent PKCS#1/struct peer with seeded padding; rogue sender; plus sessions",
+    "Seeded search over metadata fields at full width, info lengths up to and beyond the PKCS#1 limit, RSA-1024/2048 "
+    "fixtures; library-encrypted blobs are decrypted and parsed by the reference peer and vice versa; blobs under another "
+    "key, random blobs, bit-flipped blobs and RSA-valid plaintexts without the magic must raise ValueError; key derivation "
+    "is compared with SHA-256 halves.",
+    "Trusts PyCryptodome PKCS1_v1_5/RSA and the struct-based reference parser.")
+CHECKS["C16"] = ("exploration", "DESIGN.md §7 C16",
+    "deterministic simulation: messages shaped by the independent serialiser of the noise actor and every message of full sessions must parse back to exactly their parts; constructed malformed start lines",
+    "Seeded search over methods, paths, parameter maps with arbitrary bytes, header maps, binary bodies, status lines and "
+    "constructed malformed start lines, serialised by an independent serialiser; plus every message that the real httpx-built "
+    "client and the reference server put on the simulated wire.",
+    "Input dimension is sampled, not scheduled; what the simulator adds is the population (real httpx requests, peer replies, noise) and the independent second party.")
+
 NOT_APPLICABLE = {
     "C02": "Pure function config-block bytes -> settings/views; no schedule, clock, fault, reader state or history for a simulator to control.",
     "C03": "Pure decoders of binary sub-encodings (bytes -> steps/strings); nothing to inject or interleave.",
